@@ -37,19 +37,19 @@ producer stores non-zero tokens through the `*_init` forms, worker and consumer 
 values, the consumer takes items with `pop_move` / clone / peek, iterators are dropped at any point — records no
 undefined behaviour at all: no destructor on an empty slot, no empty slot read as an item, no window outside the
 storage. And every item in flight stays a non-zero token. -/
-theorem C09_no_zero_use (slots : List Nat) (hasW heap : Bool) (hlen : 1 ≤ slots.length) (ops : List Op)
+theorem C09_no_zero_use (slots : List Nat) (hasW heap : Bool) (hlen : 1 ≤ slots.length) (hlt : slots.length < 2 ^ 63) (ops : List Op)
     (hal : AllowedRun (St.init slots hasW heap true) (Sp.init slots.length hasW) ops) (hd : DiscRun ops) :
     (run (St.init slots hasW heap true) ops).1.fault = none ∧ NZ ((Sp.init slots.length hasW).run ops).1 :=
-  no_fault_run (rel_init slots hasW heap true hlen) (NZ.init _ _) rfl ops hal hd
+  no_fault_run (rel_init slots hasW heap true hlen hlt) (NZ.init _ _) rfl ops hal hd
 
 /-- The other documented use: a buffer built from existing data (every slot occupied) that is only ever stored into
 (plain or `*_init` stores of non-zero tokens, by any stage) and read by clone / peek — never `pop_move`d — stays fully
 occupied for ever, so the unconditional stores never meet an empty slot either. -/
-theorem C09_no_zero_use_full_buffer (slots : List Nat) (hasW heap : Bool) (hlen : 1 ≤ slots.length) (hocc : ∀ v ∈ slots, v ≠ 0)
+theorem C09_no_zero_use_full_buffer (slots : List Nat) (hasW heap : Bool) (hlen : 1 ≤ slots.length) (hlt : slots.length < 2 ^ 63) (hocc : ∀ v ∈ slots, v ≠ 0)
     (ops : List Op) (hal : AllowedRun (St.init slots hasW heap true) (Sp.init slots.length hasW) ops)
     (hd : ∀ op ∈ ops, DiscFull op) :
     (run (St.init slots hasW heap true) ops).1.fault = none ∧ AllOcc (run (St.init slots hasW heap true) ops).1 :=
-  full_run (rel_init slots hasW heap true hlen)
+  full_run (rel_init slots hasW heap true hlen hlt)
     (by intro i hi; simp only [St.init] at hi ⊢; exact getD_ne_zero_of_mem slots i hi hocc) rfl ops hal hd
 
 /-- One step of it, from any reachable state: what the consumer takes is never an empty slot. -/
@@ -59,8 +59,7 @@ theorem C09_taken_item_nonzero {s : St} {a : Sp} (h : Rel s a) (hz : NZ a) (hav 
 /-- Tie to the source: the `*_init` forms test every slot separately, and the emptiness test looks at all bytes. -/
 theorem C09_source_init_shapes :
     Gen.storePushInit = .initBranch ∧ Gen.storePushSliceInit = .perSlotInitCopy ∧ Gen.storePushSliceCloneInit = .perSlotInitClone ∧
-    Gen.pinCheckZeroed = "{unsafe{(*slice_from_raw_parts(ptras*constu8,size_of::<T>())).iter().all(|x|*x==0)}}" ∧
-    Gen.pinCellDrop = "{if!UnsafeSyncCell::check_zeroed(self.0.get_mut().as_mut_ptr()){unsafe{self.0.get_mut().assume_init_drop()}}}" :=
+    Gen.cellFacts.checkZeroedAllBytes = true ∧ Gen.cellFacts.dropSkipsZeroed = true :=
   ⟨rfl, rfl, rfl, rfl, rfl⟩
 
 /-- Non-vacuity: `new_zeroed`, `*_init` pushes over empty and occupied slots alternating, no fault, one destructor per replaced value. -/
